@@ -91,7 +91,10 @@ def handleBatch (j : Json) : R Json := do
   let used := scripts.filter (fun e => comp.contains e.1)
   let contract := scriptsOkB gs T S used && pairwiseDisjointB gs (comp.map (·.1))
   let q := seqRun ci P w comp
-  pure (jObj [("out", encOut o), ("parallel", jBool (parallelOn enabled agents mw)),
+  let encDs := fun (ds : List (Str × Int)) => jArr (ds.map (fun d => jArr [jStr (ofCps d.1), jInt d.2]))
+  let applied := if parallelOn enabled agents mw
+    then jArr ((runParApplied ci limit P gs mw w tasks).map encDs) else Json.null
+  pure (jObj [("out", encOut o), ("applied", applied), ("parallel", jBool (parallelOn enabled agents mw)),
               ("computed", jArr (comp.map (fun t => jArr [jStr (ofCps t.1), jStr (ofCps t.2)]))),
               ("contract", jBool contract), ("seq", encOut q)])
 
